@@ -47,9 +47,15 @@ type chunkReader struct {
 	chunk   int
 	fail    bool
 	withEnd bool // the last chunk comes together with the end (io.EOF, or the error): allowed by io.Reader
+	stall   bool // every other call delivers nothing yet: (0, nil), allowed by io.Reader
+	calls   int
 }
 
 func (r *chunkReader) Read(p []byte) (int, error) {
+	r.calls++
+	if r.stall && r.calls%2 == 1 && len(p) > 0 {
+		return 0, nil
+	}
 	if len(r.data) == 0 {
 		if r.fail {
 			return 0, errBoom
@@ -77,7 +83,7 @@ func (r *chunkReader) Read(p []byte) (int, error) {
 // reader_sized*: readers of the standard library that know their total size (Size(), Len(), ReadAt, Seek) -- fresh, and after
 // the caller has consumed a prefix (a byte order mark, a header): the cursor ranges over exactly what the reader still delivers
 var ctors = []string{"bytes_spare", "bytes_tight", "string", "reader_bytes", "reader_plain", "reader_fail",
-	"reader_sized", "reader_sized_mid", "reader_bytesreader_mid", "reader_section_mid", "reader_eofdata", "reader_eofdata_1", "reader_fail_withdata"}
+	"reader_sized", "reader_sized_mid", "reader_bytesreader_mid", "reader_section_mid", "reader_eofdata", "reader_eofdata_1", "reader_fail_withdata", "reader_stall"}
 
 // inst is one cursor under test plus what the harness knows about the caller's memory.
 type inst struct {
@@ -129,6 +135,8 @@ func build(kind, ctor string, data []byte) *inst {
 		r = &chunkReader{data: append([]byte{}, data...), chunk: 2, fail: true}
 		in.failed = true
 		in.data = nil
+	case "reader_stall":
+		r = &chunkReader{data: append([]byte{}, data...), chunk: 2, stall: true}
 	case "reader_eofdata":
 		r = &chunkReader{data: append([]byte{}, data...), chunk: 2, withEnd: true}
 	case "reader_eofdata_1":
